@@ -11,7 +11,9 @@ import sys
 
 ENV = {"PYTHONHASHSEED": "0", "OMP_NUM_THREADS": "1", "OPENBLAS_NUM_THREADS": "1",
        "MKL_NUM_THREADS": "1", "NUMBA_NUM_THREADS": "1", "WANNIERBERRI_VERIF": "1",
-       "RAY_DEDUP_LOGS": "0", "PYTHONDONTWRITEBYTECODE": "1"}
+       "RAY_DEDUP_LOGS": "0", "PYTHONDONTWRITEBYTECODE": "1",
+       # glibc: keep large blocks on the heap (forked workers otherwise spend their time in mmap/munmap)
+       "MALLOC_MMAP_THRESHOLD_": "268435456", "MALLOC_TRIM_THRESHOLD_": "536870912", "MALLOC_TOP_PAD_": "67108864"}
 
 
 def main():
